@@ -144,6 +144,10 @@ def run_one(workload, kind, code, at, tape, sched, detail, dry=False, faulty=Fal
         if plan_ is not None:
             plan_.stop()
             rig.line._latency = lambda: 0.001
+            # bytes the faulty line is still holding back (stalls of up to seconds) would otherwise arrive long after the NCP died,
+            # which no serial line does: the bound is measured from the failure on a line that is quiet from then on
+            rig.line.n2h.clear()
+            rig.line.h2n.clear()
         st["t_inj"] = loop.time()
         st["writes_at_inj"] = len(rig.host_writes)
         st["in_progress"] = [c for c in calls if c["t_end"] is None]
